@@ -484,3 +484,78 @@ def check_scan_positions(case, ctx):
                 f"explicit list of the raster points differs from the raster construction: {ref.shape} vs {out.shape}",
                 ("positions", "raster_equivalence"),
             )
+
+
+# ======================================================================= claim 5 (added after seeded/C28-2)
+@st.composite
+def half_pixel_case(draw):
+    win = [draw(st.integers(6, 14)), draw(st.integers(6, 14))]
+    obj = [win[0] + draw(st.sampled_from([4, 6, 9])), win[1] + draw(st.sampled_from([4, 5, 10]))]
+    pos = []
+    for p in obj:
+        k = draw(st.integers(0, p - 1))
+        pos.append(k + draw(st.sampled_from([0.5, 0.5, 0.25, 0.0, -0.5])))
+    return {
+        "window": win,
+        "objects_shape": obj,
+        "object_seed": draw(gen.seeds()),
+        "probe_seed": draw(gen.seeds()),
+        "position": pos,
+        "old_integer": [draw(st.integers(0, obj[0] - 1)), draw(st.integers(0, obj[1] - 1))],
+    }
+
+
+@claim(
+    "C28",
+    "window_and_subpixel_shift_consistent",
+    half_pixel_case,
+    quick=1200,
+    thorough=24000,
+    tol="window centre + measured probe shift == position within 1e-6 pixel",
+    rule="a coordinate with fractional part exactly one half (tie of the rounding convention)",
+    nontrivial_floor=0.4,
+)
+def check_half_pixel(case, ctx):
+    """Convention-free consistency at rounding ties: moving the probe from an integer pixel
+    to ``position`` shifts the probe array by s and cuts the object window around some
+    pixel c; whatever rounding convention is used, the probe must end up at the requested
+    position, i.e. c + s == position on every axis (otherwise the true object and probe
+    are not a fixed point for an independently simulated pattern)."""
+    from abtem.reconstruct import RegularizedPtychographicOperator as Op
+
+    win = tuple(case["window"])
+    objects = _field("random", tuple(case["objects_shape"]), case["object_seed"], np.complex128)
+    probes0 = _field("blob", win, case["probe_seed"], np.complex128)
+    position = np.array(case["position"], float)
+    old = np.array(case["old_integer"], float)
+    ties = [abs(p - np.floor(p) - 0.5) < 1e-12 for p in position]
+    ctx.nontrivial(any(ties))
+    ctx.label("tie_even" if any(t and int(np.floor(p)) % 2 == 0 for t, p in zip(ties, position)) else ("tie_odd" if any(ties) else "no_tie"))
+    probes, psi = Op._overlap_projection(objects, probes0.copy(), position, old, xp=np)
+    probes, psi = np.asarray(probes, np.complex128), np.asarray(psi, np.complex128)
+    # measured sub-pixel shift of the probe array (first harmonic of each axis)
+    f0, f1 = np.fft.fft2(probes0), np.fft.fft2(probes)
+    s = []
+    for ax, n in enumerate(win):
+        idx = (1, 0) if ax == 0 else (0, 1)
+        if abs(f0[idx]) < 1e-6 * np.abs(f0).max():
+            ctx.skip()
+            return
+        s.append(-np.angle(f1[idx] / f0[idx]) * n / (2 * np.pi))
+    # window centre actually used: the candidate whose periodic window reproduces psi
+    scale = float(np.abs(psi).max())
+    found = None
+    for cx in {int(np.floor(position[0])), int(np.ceil(position[0]))}:
+        for cy in {int(np.floor(position[1])), int(np.ceil(position[1]))}:
+            ref = _roi(objects, [cx, cy], win) * probes
+            if float(np.abs(psi - ref).max()) <= 1e-9 * max(scale, 1e-300):
+                found = (cx, cy)
+    if found is None:
+        raise Violation(f"exit wave is O_roi*P for no window centred within half a pixel of {case['position']}", ("half_pixel", "no_window"))
+    for ax in range(2):
+        if abs(found[ax] + s[ax] - position[ax]) > 1e-6:
+            raise Violation(
+                f"axis {ax}: window centred on pixel {found[ax]} but the probe was shifted by {s[ax]:+.4f} px: "
+                f"the probe sits at {found[ax] + s[ax]:.4f}, requested {position[ax]} (old position {case['old_integer']})",
+                ("half_pixel", "inconsistent", "tie" if ties[ax] else "no_tie"),
+            )
